@@ -107,11 +107,7 @@ class ElfObject:
     def symbol(self, name, section=None, value=0, size=0, bind=STB_GLOBAL, type=STT_NOTYPE,
                vis=STV_DEFAULT, shndx=None):
         """section: Sec | None (undefined) | 'abs' | 'common' (value = alignment). shndx (int)
-        overrides st_shndx verbatim. Asking again for the same undefined global returns it."""
-        if section is None and shndx is None and bind != STB_LOCAL:
-            for s in self.symbols:
-                if s.name == name and s.section is None and s.shndx is None and s.bind == bind:
-                    return s
+        overrides st_shndx verbatim. Every call appends a new entry (duplicates are allowed)."""
         s = Sym(name, section, value, size, bind, type, vis, shndx)
         self.symbols.append(s)
         return s
